@@ -194,8 +194,22 @@ theorem c20_executable_exact (files : List String) (e : EntryPoint) (dflt : Env)
 
 /-- A command given as a path is executed verbatim. -/
 theorem c20_path_command_verbatim (files : List String) (env : Env) (cmd : String)
-    (h : isPath cmd = true) : resolve files env cmd = some cmd := by
-  simp [resolve, h]
+    (h : isPath cmd = true) (hx : files.contains cmd = true) : resolve files env cmd = some cmd := by
+  simp only [resolve, h, hx, if_true]
+
+/-- ... and a path that does not exist (or cannot be executed) is not launched, whatever the environment. -/
+theorem c20_missing_path_not_launched (files : List String) (env : Env) (cmd : String)
+    (h : isPath cmd = true) (hx : files.contains cmd = false) : resolve files env cmd = none := by
+  simp only [resolve, h, hx, if_true]
+  rfl
+
+/-- **One server that cannot be spawned does not disturb the others.**  In a list of requested servers every one
+whose command resolves is launched — each once, in order — wherever the unspawnable ones stand. -/
+theorem c20_runner_survives_unspawnable (files : List String) (dflt : Env) (f : File) (names : List String) :
+    (entryOn files .runner dflt f names).launches
+      = (names.filterMap (fun n => toOpt (one dflt f n))).filterMap (resolveLaunch files)
+    ∧ (entryOn files .runner dflt f names).raised = none := by
+  simp [entryOn, entry]
 
 /-- With a configured (non-empty) environment the executed file does not depend on the host
 process at all: whatever the host's own environment (`dflt₁`, `dflt₂`), the same file runs. -/
